@@ -3,8 +3,8 @@ Model of the script builders and their parsers:
  * pkg/vm/emit/emit.go: `Int`, `BigInt` (`smallInt`, `bigInt`, `padRight`, l.55-118), `Bytes` (l.266-282),
    `Syscall` (l.286-296);
  * pkg/vm/stackitem `CheckIntegerSize` (item.go:434-451);
- * pkg/smartcontract/contract.go `CreateMultiSigRedeemScript` (l.16-39) — the keys are taken in the
-   order they are emitted (the in-place sort by `PublicKey.Cmp` is not modelled);
+ * pkg/smartcontract/contract.go `CreateMultiSigRedeemScript` (l.16-39) on the emitted key order
+   (`createMultiSig`); the in-place sort by `PublicKey.Cmp` is in MsSort.lean (`createMultiSigK`);
  * pkg/crypto/keys/publickey.go `GetVerificationScript` (l.345-373, NEO3 prefix);
  * pkg/smartcontract/scparser: `Context.Next` (context.go:49-124) restricted to the opcodes the
    standard-contract parsers can accept (every other opcode makes them return false whether or not
